@@ -89,7 +89,7 @@ def add_reg(u):
     F(u.fn(R, 'build_reg2', impl='SrtlaRegistrationManager', sub='reg', ret='r', post_rewrite=[('create_reg2_packet(', 'create_reg2_packet_(', 1)], ensures=[
         C('C07.reg.build_reg2.carries_adopted_id', 'r@ == spec_reg_packet(0x9201u16, self.srtla_id@)')]))
     F(u.fn(R, 'process_registration_packet', impl='SrtlaRegistrationManager', sub='reg', ret='r', requires=['now_ms < CLOCK_MAX'], ensures=[
-        C('C07.reg.dispatch.event_exactly_for_the_four_handshake_types',
+        C('C07+C09.reg.dispatch.event_exactly_for_the_four_handshake_types',
           '''(r is Some) == (spec_packet_type(buf@) == Some(0x9211u16) || spec_packet_type(buf@) == Some(0x9201u16) || spec_packet_type(buf@) == Some(0x9202u16) || spec_packet_type(buf@) == Some(0x9210u16))
             && (r is Some ==> ((r.unwrap() is RegNgp) == (spec_packet_type(buf@) == Some(0x9211u16)) && (r.unwrap() is Reg2) == (spec_packet_type(buf@) == Some(0x9201u16))
                 && (r.unwrap() is Reg3) == (spec_packet_type(buf@) == Some(0x9202u16)) && (r.unwrap() is RegErr) == (spec_packet_type(buf@) == Some(0x9210u16))))'''),
